@@ -77,14 +77,15 @@ def groupEntries (f : NcFile) (g : Grp) : List Entry :=
     g.vars.map fun v => mkVar f g.path { v with attrs := v.attrs.filter fun a => a.1 ≠ "path" }
 
 /-- `NetCDFHandler.__init__`: the dataset itself, non-coordinate root variables (lazy), the groups, and last the root
-    coordinate variables (read eagerly and raw, with `dims = ["/" + name]`) -/
+    variables named like a root dimension (read eagerly and raw; repaired: with their own dimensions
+    `["/" + d for d in var.dimensions]`, the pinned tree hard-coded `["/" + name]`) -/
 def netcdfEntries (f : NcFile) : List Entry :=
   Entry.group [] f.root.dims f.root.attrs ::
   ((f.root.vars.filter fun v => !isCoord f v).map fun v =>
       Entry.var [] v.name v.ty v.shape (v.dims.map fun d => (([] : List String), d)) v.attrs true)
   ++ f.groups.flatMap (groupEntries f)
   ++ ((f.root.dims.map Prod.fst).filterMap fun d => (f.root.vars.find? fun v => v.name = d)).map fun v =>
-      Entry.var [] v.name v.ty v.shape [(([] : List String), v.name)] v.attrs false
+      Entry.var [] v.name v.ty v.shape (v.dims.map fun d => (([] : List String), d)) v.attrs false
 
 /-! ### `LazyVariable.__getitem__` -/
 
@@ -96,7 +97,7 @@ deriving Repr, DecidableEq
 def prod (l : List Nat) : Nat := l.foldl (· * ·) 1
 
 inductive Err where
-  | index | reshape | library
+  | index | reshape | library | typeError
 deriving Repr, DecidableEq
 
 /-- the keys a rank-0 variable receives (`var[...]`, `var[()]`, and `data[np.newaxis]` from the DODS
@@ -139,6 +140,43 @@ def lazyGetPinned (read : Key → Except Err Arr) (astype : List Nat → List Na
   match read key with
   | .ok a => if prod a.shape = prod reshape then .ok { shape := reshape, data := astype a.data } else .error .reshape
   | .error e => .error e
+
+/-! ### the `LazyVariable` object: what `__init__` records and what `reshape` changes -/
+
+structure Lazy where
+  dtype : String                   -- `np.dtype(var.dtype)`
+  ndim : Nat                       -- `len(var.dimensions)`
+  shape : List Nat                 -- `var.shape` (the `shape` property returns this, also after `reshape`)
+  reshape : List Nat               -- `_reshape`
+  size : Nat                       -- `np.prod(self.shape)`
+deriving Repr, DecidableEq
+
+/-- `LazyVariable.__init__` -/
+def Lazy.ofVar (v : Var) : Lazy := ⟨v.ty, v.dims.length, v.shape, v.shape, prod v.shape⟩
+
+/-- numpy's two calling conventions: `reshape(2, 3)` and `reshape((2, 3))` -/
+inductive ReshapeArgs where
+  | ints (l : List Nat)
+  | seq (l : List Nat)
+deriving Repr, DecidableEq
+
+def ReshapeArgs.target : ReshapeArgs → List Nat
+  | .ints l => l
+  | .seq l => l
+
+/-- repaired `LazyVariable.reshape`: a single tuple/list argument is unpacked (the pinned tree stored `((2, 3),)`,
+    on which the next whole-variable read raised TypeError); nothing but `_reshape` changes -/
+def Lazy.doReshape (lv : Lazy) (a : ReshapeArgs) : Lazy := { lv with reshape := a.target }
+
+/-- `__len__` -/
+def Lazy.len (lv : Lazy) : Except Err Nat :=
+  match lv.shape with
+  | [] => .error .typeError
+  | n :: _ => .ok n
+
+/-- `__getitem__` on the object -/
+def Lazy.get (lv : Lazy) (read : Key → Except Err Arr) (key : Key) : Except Err Arr :=
+  lazyGet read id lv.shape lv.reshape key
 
 /-! ### CSV -/
 
